@@ -44,7 +44,16 @@ PJ3 == ABin("=", AIdx(AIdx(Call1("json", Call1("lower", AVal)), AStr(a)), AInt(0
 P18 == AIn(AKey, <<ABin("+", AStr(a), AStr(bb)), AStr(bb)>>)
 P19 == ABetween(Call1("int", AVal), ABin("-", AInt(3), AInt(2)), AInt(5))
 P20 == AIn(Call1("strlen", AKey), <<ABin("*", AInt(1), AInt(2)), AInt(3)>>)
-Atoms == {P18, P19, P20, P1, P2, P3, P4, P5, P6, P7, P8, P9, P10, P11, P12, P13, P14, P15, P16, P17}
+\* an integer compared with a float constant for (in)equality: numbers are one type, the row-at-a-time twin included
+P21 == ABin("=", Call1("int", AVal), AFlt(2, 0))
+P22 == ABin("!=", Call1("strlen", AKey), AFlt(3, 1))
+P23 == ABin("=", AFlt(2, 0), Call1("int", AVal))
+\* ordering between two operands of one unsupported type (two lists, two documents, two Booleans): no single leaf is wrong, the operator is
+PairFaults == { ABin(op, x, y) : op \in {"<", "<=", ">", ">="},
+                  x \in {SplitV}, y \in {Call2("split", AKey, AStr(Comma)), ACall("list", <<AInt(1), AInt(2)>>)} }
+              \cup { ABin(op, Call1("json", AVal), Call1("json", AKey)) : op \in {"<", ">="} }
+              \cup { ABin(op, Call1("is_int", AVal), Call1("is_int", AKey)) : op \in {"<", ">="} }
+Atoms == {P21, P22, P23, P18, P19, P20, P1, P2, P3, P4, P5, P6, P7, P8, P9, P10, P11, P12, P13, P14, P15, P16, P17}
 SmallP == IF Scale >= 2 THEN {P1, P3, P5, P7, P10, P2} ELSE {P1, P3, P7}
 Wheres == Atoms \cup {PJ, PJ2, PJ3} \cup {ANot(p) : p \in Atoms}
           \cup {ANot(ANot(p)) : p \in {P1, P3, P7}} \cup {ABin("&", P1, ANot(ANot(P7)))}      \* stacked negations
@@ -95,6 +104,7 @@ StmtMutants(st) ==
   CASE st.kind \in {"select", "delete"} ->
          LET c == Ctx(FALSE, FALSE)  env == EnvTypes(st, c) IN
          {[st EXCEPT !.where = m] : m \in Mutants(st.where, c, env) \cup WrongLeaves("B") \cup {AKey}}
+         \cup (IF st.where = P1 THEN {[st EXCEPT !.where = m] : m \in PairFaults \cup {ABin("&", P1, f) : f \in PairFaults} \cup {ANot(f) : f \in PairFaults}} ELSE {})
          \cup UNION { {[st EXCEPT !.fields[i].e = m] : m \in Mutants(st.fields[i].e, c, env)
                                                        \cup (IF TypeOf(st.fields[i].e, c, env) \in {"S", "N"} THEN {ANot(st.fields[i].e), ANot(ANot(st.fields[i].e))} ELSE {})}
                      : i \in 1..Len(st.fields) }
